@@ -62,6 +62,20 @@ def dupExpanded : List XMLAttr → Bool
   | [] => false
   | a :: r => r.any (fun b => b.uriId == a.uriId && b.name == a.name) || dupExpanded r
 
+/-- the registry variant of the same check, used for more than `attrDupHashThreshold` attributes
+    (DGXMLScanner::scanAttrListforNameSpaces: `if (fAttrDupChkRegistry->containsKey(name, uriId)) emitError(…);
+    fAttrDupChkRegistry->put(name, uriId, attr)`; IG/SG: `fUndeclaredAttrRegistry->putIfNotPresent(name, uriId)`).
+    The RefHash2KeysTableOf / Hash2KeysSetOf registry is modelled as an ABSTRACT SET of (name, uriId) keys: hashing,
+    buckets and rehashing (cf. /repo fix 02e8075, `Hash2KeysSetOf::putIfNotPresent` after a rehash) are outside this
+    model and covered by C02's hash-threshold correspondence. -/
+def dupRegistry (seen : List (String × Nat)) : List XMLAttr → Bool
+  | [] => false
+  | a :: r => seen.contains (a.name, a.uriId) || dupRegistry ((a.name, a.uriId) :: seen) r
+
+/-- `setAttrDupChkRegistry(attCount, toUseHashTable)` followed by the quadratic loop or the registry loop -/
+def dupCheck (attrs : List XMLAttr) : Bool :=
+  if attrs.length > attrDupHashThreshold then dupRegistry [] attrs else dupExpanded attrs
+
 /-- the namespace work of one start tag: push a level, first pass over the declarations (with their checks), build the
     attribute list, resolve the element name.  Returns the new scanner state, the attribute list, the element's URI id
     and whether any namespace error was emitted. -/
@@ -71,7 +85,7 @@ def startTagNS (s : Scan) (t : Tag) : Scan × List XMLAttr × Nat × Bool :=
   let declErr := raw.any (fun a => a.isNSDecl && updateNSMapErrors s a)
   let (attrs, attrErr) := buildAttList s1 raw
   let (uriId, elemErr) := s1.resolvePrefix t.pre .element
-  (s1, attrs, uriId, declErr || attrErr || elemErr || dupExpanded attrs)
+  (s1, attrs, uriId, declErr || attrErr || elemErr || dupCheck attrs)
 
 /-- `scanEndTag`/empty element: pop the level -/
 def endTagNS (s : Scan) : Scan := s.step .popTop
